@@ -242,7 +242,11 @@ def gen_c13(rng, cid, kind, data=None, thorough=False):
             py_put(hdr, *POS[(kind, f)], v)
     lines = []
     # object 1: earlier content (longer / shorter / different), then header fields, then the final data
-    lines.append('ONEW 1 %d' % kind)
+    if rng.chance(1, 6):
+        # ... or an object that holds FEWER bytes than its header (built over a short zero buffer; a moved-from object looks the same)
+        lines.append('OSHORT 1 %d %s' % (kind, hx(bytes(rng.below(HDR_SIZE[kind])))))
+    else:
+        lines.append('ONEW 1 %d' % kind)
     for _ in range(rng.range(1, 2)):
         lines.append(odata(1, kind, rand_data(rng, kind)))
     for f, v in sets:
@@ -252,6 +256,12 @@ def gen_c13(rng, cid, kind, data=None, thorough=False):
     if rng.chance(1, 2):
         lines.append(odata(1, kind, related(rng, kind, final)))
     lines.append(odata(1, kind, final))
+    cut = None
+    if kind in (1, 2, 3, 7, 8) and len(final) and rng.chance(1, 5):
+        # in-place truncation: setData called with the object's own data pointer
+        cut = rng.choice([len(final), len(final) - 1, 1, max(1, len(final) // 2)])
+        lines.append('ODATASELF 1 %d' % cut)
+        final = final[:cut]
     lines += ['OSHOW 1', 'OFRAME 1 1']
     # object 2: fresh object, same header fields, same final data
     lines.append('ONEW 2 %d' % kind)
@@ -535,7 +545,7 @@ def run_c14(res, rng):
 # ------------------------------------------------------------------ C15 TECMP
 def gen_c15(rng, cid):
     dev, ifid, ts = rng.below(256), rng.next() & 0xFFFFFFFF, rng.next()
-    kind = rng.choice(['can', 'canfd', 'lin', 'cm', 'bus', 'other', 'bad'])
+    kind = rng.choice(['can', 'canfd', 'lin', 'cm', 'bus', 'other', 'bad', 'canbig'])
     exp = None
     extra = rng.bytes(rng.choice([0, 0, 0, 2, 7]))
     if kind in ('can', 'canfd'):
@@ -546,6 +556,12 @@ def gen_c15(rng, cid):
         pl = be(arb, 4) + bytes([dlc]) + data + crc
         f = tecmp_hdr(dev, 3, rng.choice([2, 3]), len(pl), ifid=ifid, ts=ts, seq=rng.below(65536), devflags=rng.below(65536), dataflags=rng.below(65536)) + pl + extra
         exp = [dict(kind='can' if dlc <= 8 else 'canfd', arb=arb & 0x1FFFFFFF, data=data, dev=dev, ts=ts, ifid=ifid)]
+    elif kind == 'canbig':
+        # length byte above the CAN-FD maximum with that many bytes really present: whatever is returned must come from the buffer
+        dlc = rng.choice([65, 66, 67, 68, 72, 100, 200, 255])
+        pl = be(rng.next() & 0xFFFFFFFF, 4) + bytes([dlc]) + rng.bytes(dlc) + rng.bytes(rng.choice([0, 3]))
+        f = tecmp_hdr(dev, 3, rng.choice([2, 3]), len(pl), ifid=ifid, ts=ts) + pl
+        exp = None
     elif kind == 'lin':
         n = rng.choice([0, 1, 2, 8, 20])
         data = rng.bytes(n); pid = rng.below(256); cs = rng.below(256)
@@ -661,6 +677,8 @@ def judge_c15(case, lines):
         return an[0]
     ks = [D.kparse(l) for l in lines if l.startswith('K ')]
     exp = case.meta['exp']
+    if exp is None:
+        return None     # decided by the comparison with the model (and the sanitizers)
     if len(ks) != len(exp):
         return 'TECMP message yields %d packets, expected %d' % (len(ks), len(exp))
     for (n, p), e in zip(ks, exp):
@@ -781,6 +799,9 @@ def gen_c16(rng, cid, nops, devs=(1, 2, 3), ifs=(10, 20, 30)):
                 lines.append('SCOPY'); spec2 = _copy.deepcopy(spec)
             else:
                 lines.append('SOTHER'); spec, spec2 = spec2, spec
+        elif k == 8 and rng.chance(1, 2):
+            # a re-announce job feeds the tracker its own stored interface packet, by reference: nothing may change
+            lines.append('SUPDSELF %d %d' % (d, i))
         elif k < 9:
             lines.append('SRMDEV %d' % d); spec.pop(d, None)
         elif k < 11:
